@@ -22,7 +22,7 @@ Proof. intros. apply run_no_panic. apply repo_cfg_good. Qed.
 
 Lemma repo_reader_no_panic : forall limit buf,
   read_response_bounded (mkCfg (g_neg repo_cfg) (g_limit repo_cfg) limit (g_close repo_cfg) (g_reg_topics repo_cfg)
-     (g_reg_chans repo_cfg) (g_unreg_topic repo_cfg) (g_unreg_chan repo_cfg) (g_precreate_first repo_cfg) (g_skip_eph repo_cfg)) buf
+     (g_reg_chans repo_cfg) (g_skip_exiting repo_cfg) (g_unreg_topic repo_cfg) (g_unreg_chan repo_cfg) (g_precreate_first repo_cfg) (g_skip_eph repo_cfg)) buf
   <> RRPanic.
 Proof. intros. apply rrb_no_panic. reflexivity. Qed.
 
@@ -145,17 +145,28 @@ Proof.
   split; auto. destruct Q as (_ & Q1 & _). apply Q1. rewrite PC. lia.
 Qed.
 
-(* K6b: a reconnect inside a topic deletion.  The UNREGISTER of topic 0 has been served, the
-   connection is cut, the next two ticks notice and reconnect while topic 0 is exiting but
-   still in the map: connectCallback registers it again and nothing removes it afterwards. *)
+(* K6b (repaired in the source, fix 342c6f2): a reconnect inside a topic deletion.  The UNREGISTER
+   of topic 0 has been served, the connection is cut, the next two ticks notice and reconnect while
+   topic 0 is exiting but still in the map.  connectCallback now skips exiting objects: the schedule
+   is outside the hazard region and converges.  With the skip removed it resurrects topic 0. *)
 Definition k6b_hist : list op :=
   [Reconfigure [0]; TopicCreate 0; TopicAdvance 0; TopicAdvance 0; Deliver 0;
    TopicDeleteBegin 0; Deliver 0; FReply 0 [RClose]; Tick; Tick; TopicDeleteEnd 0].
 Definition k6b_suf : list op := [Tick; Tick].
 
-Lemma k6b_witness :
-  hazard_free repo_cfg (Run init) (k6b_hist ++ k6b_suf) = false /\
+Lemma k6b_repaired :
+  hazard_free repo_cfg (Run init) (k6b_hist ++ k6b_suf) = true /\
   match run repo_cfg (Run init) (k6b_hist ++ k6b_suf) with
+  | Run s => bag s = [] /\ live_keys (objs s) = [] /\ map l_regs (links s) = [[]]
+  | Crashed => False
+  end.
+Proof. vm_compute. repeat split; reflexivity. Qed.
+
+Definition cfg_without_exiting_skip : cfg :=
+  mkCfg true true 5242880 true true true false true true true true.
+
+Lemma k6b_without_the_skip :
+  match run cfg_without_exiting_skip (Run init) (k6b_hist ++ k6b_suf) with
   | Run s => bag s = [] /\ live_keys (objs s) = [] /\ map l_regs (links s) = [[KT 0%N]]
   | Crashed => False
   end.
